@@ -389,7 +389,7 @@ impl Prop for C12 {
             }
             Scenario::Sorter { conf, kind, src, exit, out_conf }
         });
-        let n = tier.pick(100, 2500);
+        let n = tier.pick(200, 2500);
         vec![
             stage("writer", (writer, errs.clone()).prop_map(|(scenario, errs)| Case { scenario, errs }), n).shrink(40),
             stage("reader", (reader, errs.clone()).prop_map(|(scenario, errs)| Case { scenario, errs }), n).shrink(40),
